@@ -80,5 +80,21 @@ func init() {
 			put(byte(version))
 			return Tuple{out, Iface{}}
 		})
+
+		// selector/parse.ParseJSONSelector is called from that package's initialiser (four constant selector
+		// texts, decoded with dag-json/refmt: opaque), and harness stubs are not applied during package
+		// initialisation. If the harness binds the function, the binding is honoured during initialisation
+		// as well; without a binding the function runs as before.
+		const pjs = "github.com/ipld/go-ipld-prime/traversal/selector/parse.ParseJSONSelector"
+		var pjsModel modelFn
+		pjsModel = func(fr *frame, a []Value) Value {
+			if stub, ok := e.Stubs[pjs]; ok && !inStub(fr, stub) {
+				return e.callSSA(fr.caller, fr.g, fr.callPos, stub, a, nil)
+			}
+			delete(e.models, pjs)
+			defer func() { e.models[pjs] = pjsModel }()
+			return e.callSSA(fr.caller, fr.g, fr.callPos, fr.fn, a, nil)
+		}
+		e.reg(pjs, pjsModel)
 	})
 }
